@@ -89,10 +89,10 @@ var osMap = map[string]string{
 	"RemoveAll": "OsRemoveAll", "Rename": "OsRename", "Truncate": "OsTruncate", "Chmod": "OsChmod",
 	"Symlink": "OsSymlink", "Link": "OsLink", "Stat": "OsStat", "Lstat": "OsLstat", "ReadDir": "OsReadDir",
 	"CreateTemp": "OsCreateTemp", "MkdirTemp": "OsMkdirTemp",
-	"Exit": "Exit", "Getpid": "Getpid", "Getppid": "Getppid",
+	"Exit": "Exit", "Getpid": "Getpid", "Getppid": "Getppid", "Getenv": "Getenv", "LookupEnv": "LookupEnv",
 }
 
-var osUnseamed = map[string]bool{"Chown": true, "Lchown": true, "Chtimes": true, "StartProcess": true, "NewFile": true, "Pipe": true, "CopyFS": true, "DirFS": true, "OpenRoot": true, "OpenInRoot": true}
+var osUnseamed = map[string]bool{"Environ": true, "ExpandEnv": true, "Hostname": true, "UserHomeDir": true, "UserConfigDir": true, "UserCacheDir": true, "Chown": true, "Lchown": true, "Chtimes": true, "StartProcess": true, "NewFile": true, "Pipe": true, "CopyFS": true, "DirFS": true, "OpenRoot": true, "OpenInRoot": true}
 
 var ioutilMap = map[string]string{"ReadFile": "OsReadFile", "WriteFile": "OsWriteFile", "TempFile": "OsCreateTemp", "TempDir": "OsMkdirTemp"}
 
@@ -453,6 +453,8 @@ func (rw *fileRewriter) run(isMain bool) {
 						kind = "exit"
 					} else if name == "Getpid" || name == "Getppid" {
 						kind = "ident"
+					} else if name == "Getenv" || name == "LookupEnv" {
+						kind = "env"
 					}
 				} else if osUnseamed[name] {
 					rw.unseamed(x.Pos(), "os."+name+" has no shim")
